@@ -176,7 +176,7 @@ def run_driver(exe, lines, timeout=1200):
     return p.stdout.split("\n")[:len(lines)]
 
 
-def coq_doc_lines(scratch_dir, texts):
+def coq_doc_lines(scratch_dir, texts, fn="rust_lines (normalize_line_breaks (enc l))", name="doc_cases"):
     """Evaluate rust_lines (normalize_line_breaks t) of coq/Model/DocLines.v inside Coq for every text (UTF-8 bytes).
     Returns a list of lists of str, or None if coqc fails."""
     def lit(t):
@@ -184,9 +184,9 @@ def coq_doc_lines(scratch_dir, texts):
     src = ("From OAS Require Import Lib.Str Model.DocLines.\nLocal Open Scope list_scope.\n"
            "Definition enc (l : list N) : string := fold_right (fun n s => String (ascii_of_N n) s) EmptyString l.\n"
            "Fixpoint dec (s : string) : list N := match s with EmptyString => [] | String c r => N_of_ascii c :: dec r end.\n"
-           "Definition run (l : list N) := map dec (rust_lines (normalize_line_breaks (enc l))).\n"
+           "Definition run (l : list N) := map dec (" + fn + ").\n"
            "Eval vm_compute in map run [" + ";\n ".join(lit(t) for t in texts) + "].\n")
-    f = os.path.join(scratch_dir, "doc_cases.v")
+    f = os.path.join(scratch_dir, name + ".v")
     open(f, "w").write(src)
     with Lock("coq"):
         rc, out = run(["timeout", "300", "coqc", "-noglob", "-Q", COQ, "OAS", f], cwd=scratch_dir, timeout=360)
